@@ -14,6 +14,15 @@ SEEDED = os.path.join(VERIF, "seeded")
 CHECKS = ["C%02d" % i for i in range(1, 21)]
 
 
+def pick_patch(d, cwd):
+    """patch.diff as delivered; patch.rebased.diff (same change carried over by hand) when /repo's HEAD has moved under it"""
+    for name in ("patch.diff", "patch.rebased.diff"):
+        p = os.path.join(d, name)
+        if os.path.exists(p) and subprocess.run(["git", "apply", "--check", p], cwd=cwd, capture_output=True).returncode == 0:
+            return p
+    return os.path.join(d, "patch.diff")
+
+
 def sh(cmd, **kw):
     p = subprocess.run(cmd, capture_output=True, text=True, **kw)
     return p.returncode, p.stdout + p.stderr
@@ -29,7 +38,7 @@ def slot_worker(slot, ids):
     for sid in ids:
         sh(["git", "checkout", "--", "."], cwd=wt)
         sh(["git", "clean", "-fdq"], cwd=wt)
-        rc, out = sh(["git", "apply", os.path.join(SEEDED, sid, "patch.diff")], cwd=wt)
+        rc, out = sh(["git", "apply", pick_patch(os.path.join(SEEDED, sid), wt)], cwd=wt)
         if rc:
             print(sid, "patch does not apply", out[-200:])
             continue
